@@ -790,6 +790,9 @@ class FnLower:
             mid = me.get('referencedMemberDecl')
             f = self.L.find_fn(mid)
             d = self.L.by_id.get(mid)
+            if d is not None and d.get('virtual') and self.L.owner.get(mid) is not None and d.get('kind') != 'CXXDestructorDecl' \
+                    and not me.get('hasQualifier') and self.strip_parens(obj).get('kind') != 'CXXThisExpr__never':
+                return dict(kind='virtual', d=d, rec=self.L.owner[mid], selfp=selfp, args=ks[1:])
             if f is not None:
                 return dict(kind='repo', f=f, selfp=selfp, args=ks[1:])
             if d is not None and self.L.owner.get(mid) is not None:
@@ -1009,7 +1012,35 @@ class FnLower:
         return res if mode != 'discard' else None
 
     def virtual_call(self, n, info, mode, dest):
-        raise Unsupported('virtual call')
+        """virtual dispatch: a chain over the final overriders of every lowered class of the hierarchy"""
+        q = qt(n)
+        if self.L.is_class(q) and not self.is_glvalue(n):
+            raise Unsupported('virtual call returning a class by value')
+        ovs = self.L.overriders(info['rec'], info['d'])
+        if not ovs:
+            raise Unsupported('virtual call without any lowered overrider: ' + str(info['d'].get('name')))
+        root = self.L.poly_root(info['rec'])
+        sp = self.fresh('vobj')
+        self.emit('struct %s* %s = %s;' % (info['rec'].cname, sp, info['selfp']))
+        args = [self.arg(a) for a in info['args']]
+        ct = self.L.ctype(q) if not self.is_glvalue(n) else self.L.ctype(q) + '*'
+        res = None
+        if ct != 'void':
+            res = self.fresh('vr')
+            self.emit('%s %s;' % (ct, res))
+        first = True
+        for r, f in ovs:
+            self.calls.add(f.cname)
+            call = '%s(%s)' % (f.cname, ', '.join(['(struct %s*)%s' % (f.rec.cname, sp)] + args))
+            self.emit('%sif (((struct %s*)%s)->vf_vtag == VF_TAG_%s) { %s%s; }' % ('' if first else 'else ', root.cname, sp, r.cname, (res + ' = ') if res else '', call))
+            first = False
+        self.emit('else { __CPROVER_assert(0, "[vcall] virtual call on an object whose dynamic type is outside the lowered class hierarchy"); }')
+        self.exc_check()
+        if mode == 'discard' or ct == 'void':
+            return '((void)0)' if mode != 'discard' else None
+        if self.is_glvalue(n):
+            return res if mode == 'lv' else deref(res)
+        return res
 
     def discard(self, n):
         """evaluate for side effects"""
